@@ -676,6 +676,15 @@ func TestDriverGethdiff(t *testing.T) {
 			cases.Add(c)
 		}
 	}
+	// part (a): random interface-operation sequences
+	nRand := n / 2
+	for j := 0; j < nRand; j++ {
+		i := n + len(directed) + j
+		terms, _ := runRandCase(worlds[j%2], rng.Fork(uint64(i)), i, seed, side)
+		for _, c := range terms {
+			cases.Add(c)
+		}
+	}
 	cases.Write(t, 60)
 	side.Write(t, out)
 }
